@@ -39,7 +39,9 @@ def gen(ctx):
             for ishape in [(), (0,), (1,), (3,), (2, 2)]:
                 size = int(np.prod(ishape)) if len(ishape) else 1
                 vals = [rng.randrange(-n, n) for _ in range(size)]
-                for idt in (["int64"] if quick else ["int64", "int32", "int8", "uint8"]):
+                others = ["int32", "int8", "uint8", "int16", "uint16", "uint32", "uint64"]
+                # every integer dtype is an admissible index dtype; the quick tier rotates through the non-default ones
+                for idt in (["int64", others[(len(cases) + ctx.seed) % len(others)]] if quick else ["int64"] + others):
                     if idt.startswith("u"):
                         vals2 = [abs(v) % n for v in vals]
                     else:
